@@ -217,24 +217,31 @@ pub const LOOM_BIN: &str = "/verif/target/loom/release/c20loom";
 
 /// Engine B: run the loom explorer (separate binary) and collect its report
 fn loom_run(tier: Tier) -> (Value, Vec<Divergence>) {
+    match loom_try(tier) {
+        Ok(x) => x,
+        Err(e) => machinery_failure(&e),
+    }
+}
+
+fn loom_try(tier: Tier) -> Result<(Value, Vec<Divergence>), String> {
     if !std::path::Path::new(LOOM_BIN).exists() {
-        machinery_failure("loom explorer not built (./check C20 builds it)");
+        return Err("loom explorer not built (./check C20 builds it)".into());
     }
     let out = std::process::Command::new(LOOM_BIN)
         .arg(tier.name())
         .env("LOOM_MAX_PREEMPTIONS", if tier == Tier::Quick { "3" } else { "4" })
         .output()
-        .unwrap_or_else(|e| machinery_failure(&format!("cannot run {LOOM_BIN}: {e}")));
+        .map_err(|e| format!("cannot run {LOOM_BIN}: {e}"))?;
     let stdout = String::from_utf8_lossy(&out.stdout);
     let Some(line) = stdout.lines().find(|l| l.starts_with("LOOM-REPORT ")) else {
-        machinery_failure(&format!("loom explorer gave no report (status {:?}): {}", out.status.code(), String::from_utf8_lossy(&out.stderr).lines().rev().take(5).collect::<Vec<_>>().join(" | ")));
+        return Err(format!("loom explorer gave no report (status {:?}): {}", out.status.code(), String::from_utf8_lossy(&out.stderr).lines().filter(|l| l.contains("panicked") || l.contains("violation")).take(3).collect::<Vec<_>>().join(" | ")));
     };
-    let v: Value = serde_json::from_str(&line["LOOM-REPORT ".len()..]).unwrap_or_else(|e| machinery_failure(&format!("loom report: {e}")));
+    let v: Value = serde_json::from_str(&line["LOOM-REPORT ".len()..]).map_err(|e| format!("loom report: {e}"))?;
     let mut d = vec![];
     for f in v["failures"].as_array().cloned().unwrap_or_default() {
         d.push(Divergence::new(format!("loom:{}", f["class"].as_str().unwrap_or("?")), f["detail"].as_str().unwrap_or("").to_string()));
     }
-    (v, d)
+    Ok((v, d))
 }
 
 pub fn run_c20(args: &Args) -> i32 {
@@ -300,12 +307,23 @@ pub fn run_c20(args: &Args) -> i32 {
     }
     eprintln!("[C20] engine A: {} reference states, {executions} executions, {:.1}s", shortest.len(), report.start.elapsed().as_secs_f64());
     // ---- engine B
-    let (lv, ld) = loom_run(args.tier);
+    let (lv, ld) = match loom_try(args.tier) {
+        Ok(x) => x,
+        Err(e) => {
+            // engine B could not run on this tree. If engine A already holds a violation, that
+            // verdict stands (with engine B's failure noted); otherwise this is a machinery failure.
+            if report.divergence_classes() == 0 {
+                machinery_failure(&e);
+            }
+            eprintln!("MACHINERY-NOTE: engine B did not complete: {e}");
+            (json!({"programs": 0, "schedules": 0, "failed": e}), vec![])
+        }
+    };
     for d in &ld {
         report.record(std::slice::from_ref(d), || json!({"kind": "loom"}));
     }
     let schedules = lv["schedules"].as_u64().unwrap_or(0);
-    if schedules < 1000 {
+    if schedules < 1000 && report.divergence_classes() == 0 {
         machinery_failure("loom explorer covered fewer than 1000 schedules: vacuous");
     }
     report.finish(
